@@ -431,11 +431,9 @@ func init() {
 				if strings.Contains(wc.canon, " true ") {
 					c.Nontrivial(wc.canon)
 				}
-				if r.EdgeBad != "" && strings.Contains(r.EdgeBad, "wildcards") {
-					// the edge rule is C04's for weights; here only the wildcard part matters
-					if !strings.Contains(r.EdgeBad, "but its target gives") {
-						continue
-					}
+				if r.EdgeWildBad != "" {
+					c.OracleFail("c11:edge-wildcards", wInput(wc, i), r.EdgeWildBad, "")
+					break
 				}
 				switch d := wc.classify(r, "wild"); d {
 				case "":
